@@ -78,6 +78,23 @@ impl Server {
     }
 }
 
+#[cfg(selium_verif)]
+impl Server {
+    /// Verification hook: builds a server around an endpoint supplied by a simulator.
+    pub fn verif_from_endpoint(endpoint: Endpoint) -> Self {
+        Self {
+            topics: Arc::new(Mutex::new(HashMap::new())),
+            topic_handles: Arc::new(Mutex::new(FuturesUnordered::new())),
+            endpoint,
+        }
+    }
+
+    /// Verification hook: runs the graceful shutdown that `listen` runs on Ctrl-C.
+    pub async fn verif_shutdown(&self) -> Result<()> {
+        self.shutdown().await
+    }
+}
+
 impl TryFrom<UserArgs> for Server {
     type Error = anyhow::Error;
 
